@@ -8,6 +8,21 @@ Model: `selectShared` (topics.go `Subscribers.SelectShared`), for **every** reso
 Go's map iteration.  One member is picked per *candidate map entry*; known finding F06 (recorded): the
 candidate map is keyed by the full filter string, so one share name with two different matching
 filters yields two entries and possibly two receivers (`C06_two_filters_counterexample`).
+
+Second part (lemmas: `Mochi/Lemmas/BrokerShared.lean`):
+* `selectShared_exact` — for every seed the selection holds, per candidate entry, exactly one of its members, and
+  nobody else;
+* `publishToSubscribers_writes_exact_shared` — the delivery theorem of C03 WITHOUT the hypothesis that no shared
+  subscription matches (QoS 0): who is written = `EntitledShared` (plain entry or picked member, No Local merged as in
+  F03), at most once per connection; `C06_delivery_exact_reach_partial` on reachable states,
+  `recv_publish_delivery_exact_shared` for the op;
+* `C06_one_receiver_per_candidate_seq_partial` — every state reachable by a sequential history, every candidate entry
+  whose members can all be served, EVERY `pickSeed`/`orderSeed`: exactly one member is picked and written; read as
+  "share group" under `NoF06` (`C06_one_receiver_per_group_seq_partial`);
+* `C06_full` (C06 as stated) is FALSE of the model and of the broker: `C06_full_false_F06` (finding F06);
+* `C06_candidate_entries_exact` — the candidate entries are exactly the shared subscriptions of the index whose topic
+  part `specMatch`es the topic.
+Partial: QoS 0 only ("or queue", in-flight limits, packet ids not covered), sequential histories (no schedule ops).
 -/
 namespace Mochi.Broker
 open Mochi.Topics
